@@ -235,12 +235,23 @@ CLAIMED.update({
               "request stream of generated histories is replayed through the model; values of histories with options switched at every "
               "step compared with the history-free NumPy value.", "5/C09", _TB + "traversal order and planners enter as oracles.",
               "Coq cache-invariant theorem + replay of the real lowering cache + history/config exploration"),
-    "C11": _c("Coq (coq/Properties/C11.v): a mutation-history model (collections = pointers to immutable expressions + derived caches): after "
-              "any op sequence caches are coherent, no op changes another collection's expression, derived collections keep the expression "
-              "captured at derivation, identity-returning derivations alias; 1-D denotation of slice assignment.  Tie: real histories are "
-              "replayed (object identity, cache sets, names) against the model; after every step the target is compared with NumPy, every "
-              "other collection with its value at derivation (masked values included), keys with the current name.", "5/C11", _TB,
-              "Coq mutation-history model + correspondence + history exploration vs NumPy"),
+    "C11": _c("Coq (coq/Properties/C11.v, 26 obligations): (1) a mutation-history model (collections = pointers to immutable expressions + "
+              "derived caches): after any op sequence caches are coherent, no op changes another collection's expression, derived "
+              "collections keep the expression captured at derivation, identity-returning derivations alias; 1-D denotation of slice "
+              "assignment.  (2) the PER-BLOCK PLAN of setitem_array_expr (SetitemPlan.v: a transcription of normalize_index + "
+              "parse_assignment_indices + parse_and_validate_assignment + the block loop, for slices of either sign, integers and one 1-D "
+              "integer list, broadcast values): per-axis theorems (a block is untouched iff no indexed position lies in it; else the local "
+              "index is in bounds, the value sub-slice [pre, pre+size) is in bounds and local position q is indexed iff loc0+q is; list "
+              "entries: last write wins consistently), N-d FRAME for every parsed index (untouched blocks contain no indexed position, "
+              "touched ones do, blocks are disjoint), parse yields well-formed indices; the full N-d denotation is proved for untouched "
+              "blocks (`_partial`) and DECIDED inside Coq (`den_ok_b`, element-wise NumPy spec) on every agreeing generated case.  Tie: "
+              "real histories are replayed (object identity, cache sets, names) against the model; the seven outputs of the real "
+              "parse_and_validate_assignment (or its exception) and the Alias / setitem-task arguments of the real SetItem layer are "
+              "compared exactly with `parse` / `plan_obs`; after every step the target is compared with NumPy, every other collection "
+              "with its value at derivation (masked values included), keys with the current name.", "26/C11",
+              _TB + "the N-d lift of the denotation for touched blocks and the raw-to-parsed slice bridge are not proved (decided per case); "
+              "boolean / dask-array indices are outside the plan model (histories compare them with NumPy).",
+              "Coq mutation-history model + setitem plan model + exact plan correspondence + history exploration vs NumPy"),
     "C14": _c("Coq (coq/Properties/C14.v, 26 obligations): executing the modelled task-rechunk graph yields blocks whose concatenation is the "
               "input and block j is exactly segment j of the new layout (1-D, any layouts incl. zero-size; rank-2 product version), "
               "single-source blocks are aliases, multi-step plans compose, Rechunk.chunks = normalize_chunks of the merged spec and is a "
